@@ -57,6 +57,11 @@ def tmpl_spaces(base, names, variant=None, **kw):
             for n in names]
 
 
+def atmpl_spaces(base, names, alphabet, **kw):
+    """Unicode-separator counterpart of tmpl_spaces: '?' positions fork over `alphabet`"""
+    return [dict(base, sep='U', gen='atmpl', tmpl=TEMPLATES[n], tname=n, alphabet=list(alphabet), **kw) for n in names]
+
+
 def std_tmpl_spaces(base, q, variants=True, names=None, **kw):
     """the standard template spaces of a wrap-level property: quick: three cheap templates; thorough: all of them,
     plus (variants) break_words off and symbolic indents on the multi-word ones"""
@@ -161,6 +166,14 @@ class WrapHarness(Harness):
             # sentence template (harness.gen_tmpl): reaches paragraph shapes (5-8 words, 3-6 output lines at the
             # widths that matter) far beyond the flat N bound while width and indents stay fully symbolic
             return gen_tmpl(I, cfg['tmpl'])
+        if g == 'atmpl':
+            # template whose '?' positions fork over a stated alphabet: concrete text on every path, as the Unicode
+            # separator (unicode_linebreak runs natively) needs
+            chars = []
+            for ch in cfg['tmpl']:
+                tok = cfg['alphabet'][I.choose(len(cfg['alphabet']), 'alpha')] if ch == '?' else ch
+                chars.extend((ord(c), utf8len(ord(c))) for c in tok)
+            return Txt(chars)
         if g == 'symcls':
             return gen_text(I, n, 'c', tuple(cfg['classes']), lenvar=cfg.get('lenvar', True))
         if g == 'alpha':
